@@ -7,11 +7,17 @@ use crate::scenario::*;
 
 /// does the stack of a thread with (ip, sp) reference [lo, hi)?
 fn references(k: &crate::kernel::Kernel, ip: u64, sp: u64, lo: u64, hi: u64) -> Option<bool> {
+    references_upto(k, ip, sp, lo, hi, u64::MAX)
+}
+
+/// like `references`, but only words below `limit_end` count
+fn references_upto(k: &crate::kernel::Kernel, ip: u64, sp: u64, lo: u64, hi: u64, limit_end: u64) -> Option<bool> {
     if ip >= lo && ip < hi {
         return Some(true);
     }
     let w = &k.world;
     let (_mlo, mhi) = util::mapping_hull(w, sp)?;
+    let mhi = mhi.min(limit_end);
     let mut a = (sp + 7) & !7;
     while a + 8 <= mhi {
         let b = k.read_mem_captured(a, 8);
@@ -72,8 +78,23 @@ pub fn check(sc: &Scenario, res: &RunResult) -> Vec<Violation> {
             None => Some(false),
             Some((lo, hi)) => references(k, ip, sp, lo, hi),
         };
-        let Some(want) = want else { continue };
+        let Some(mut want) = want else { continue };
         let have = t.stack_size > 0;
+        // a thread whose stack may be shortened by the size limit: a reference that lies beyond the
+        // 2 KiB that can be captured is not something the statement decides either way
+        let idx = threads.iter().position(|x| x.tid == t.tid).unwrap_or(0);
+        if opts.size_limit.is_some() && idx >= 20 && !is_crash && want {
+            if let Some((lo, hi)) = principal {
+                let chunk_end = (sp & !2047) + 2048;
+                let near = references_upto(k, ip, sp, lo, hi, chunk_end).unwrap_or(false);
+                if !near {
+                    if !have {
+                        continue;
+                    }
+                    want = have;
+                }
+            }
+        }
         if want && !have {
             out.push(v("C20", "referencing-stack-dropped", format!("thread {} references the principal mapping {:x?} but its stack is empty", tid, principal)));
         }
